@@ -42,6 +42,7 @@ static void families(std::vector<RCfg>& out, bool thorough) {
       if (!thorough && kk0 != 2 && kk1 != 2) continue;
       Cfg c; Arg a = mk('a', "alpha", k0, kk0), b = mk('b', "beta", k1, kk1), g = mk('g', "gamma", FLAG);
       if (req) a.req = {1}; else a.excl = {1};
+      if (kk1 == 2 && kk0 == 2 && k1 != VECINT) { a.cspell = (k0 == FLAG ? 1 : 2); }      // partner with both keys named by one of them
       c.args = {a, b, g}; push(req ? "requires" : "excludes", c, {generic_dom(k0).empty() ? std::vector<std::string>{} : std::vector<std::string>{"5"}, generic_dom(k1).empty() ? std::vector<std::string>{} : std::vector<std::string>{generic_dom(k1)[0]}, {}});
    }
    // F4+F5 on the SAME partner: g is required by a and excluded by b (both orders of definition), and a partner that is target of two
@@ -50,6 +51,8 @@ static void families(std::vector<RCfg>& out, bool thorough) {
       Cfg c; Arg a = mk('a', "alpha", FLAG), b = mk('b', "beta", FLAG), g = mk('g', "gamma", kg);
       if (variant == 0) { a.req = {2}; b.excl = {2}; } else if (variant == 1) { a.excl = {2}; b.req = {2}; } else if (variant == 2) { a.req = {2}; b.req = {2}; } else { a.excl = {2}; b.excl = {2}; }
       c.args = {a, b, g}; push("same-partner", c, {{}, {}, kg == FLAG ? std::vector<std::string>{} : std::vector<std::string>{"5"}});
+      // the same with the partner named differently by the two constraining arguments (short key by one, long key by the other)
+      for (int sw = 0; sw < 2; ++sw) { Cfg c2 = c; c2.args[0].cspell = sw ? 2 : 1; c2.args[1].cspell = sw ? 1 : 2; push("same-partner", c2, {{}, {}, kg == FLAG ? std::vector<std::string>{} : std::vector<std::string>{"5"}}); }
    }
    // F6 all_of / any_of / one_of
    for (int t = 1; t <= 3; ++t) for (Kind k0 : {FLAG, INT}) for (Kind k1 : {FLAG, STR}) for (int kk = 0; kk < 3; ++kk) {
